@@ -10,6 +10,7 @@ pub fn registry() -> Vec<Box<dyn FamilyDyn>> {
         Box::new(FamRunner::new(crate::fam_atomic::program_set)),
         Box::new(FamRunner::new(crate::fam_sync::program_set)),
         Box::new(FamRunner::new(crate::fam_mpsc::program_set)),
+        Box::new(FamRunner::new(crate::fam_thread::program_set)),
     ]
 }
 
@@ -177,6 +178,7 @@ pub fn run_check(id: &str, tier: Tier) -> ! {
     let res = match id {
         "C04" => c04(&ctx),
         "C05" => c05(&ctx),
+        "C07" => conformance(&ctx, &["thread"], &["thread-local life cycle is judged by a monitor over logged init/drop events (expected sequence computed from the program: lazy init on first use, destruction in initialisation order, a destructor touching a destroyed key sees AccessError, a key first touched during destruction is initialised then and destroyed later)"]),
         "C06" => conformance(&ctx, &["mpsc"], &["reference model: FIFO channel with FIFO queue of blocked senders (Appendix A); rendezvous = hand-off only to a waiting receiver, as the property states"]),
         _ => {
             eprintln!("MACHINERY-ERROR: no check registered for {}", id);
